@@ -729,7 +729,7 @@ impl Check for C14 {
         CheckInfo {
             id: "C14",
             level: "fault_enumeration",
-            rule: "one case = a typed template (page tree; name tree + number tree + outlines; Type0/CID/simple fonts with /W, /Differences, ToUnicode; colour spaces with all four function types; stream /Length references, predictors, LZW, CCITT/DCT image parameters; hand-written object stream with /Extends under an xref stream; two-revision files with classic and stream sections; /Encrypt dictionaries that fail the password check and two RC4-encrypted 'rich' documents (plain and through crypt filters with object streams) that open with the empty user password; page tree, name tree and number tree that are DAGs; a 3000-link /Parent chain without a cycle (faults planted in its first 8 objects); annotations with appearance dictionaries; the 'rich' document) + structure-aware at-rest faults written through the harness's writer: retarget (every reference field x every object incl. itself, object 0 and an undefined number), boundary (every numeric field x {-1, 0, 1, 2^31-1, 2^32-1, 2^64-1}), nest (25 and 5000 levels), stream /Length reference retargeted, stream data replaced by 49 hostile payloads (PostScript calculator programs, CMaps, content streams incl. inline images without data, object-stream headers, runs of 100 000-150 000 '%', '(' or escaped line ends), every dictionary entry removed, hostile stream dictionary entries (/Length disagreeing with the data, /Filter arrays of 1000 stages, mismatching /DecodeParms, /JBIG2Globals naming the stream itself), hostile /Size /Prev (incl. self-loop) /Root /W /Index /Length of trailer and xref stream; x {strict, tolerant} x {cached, uncached} x {2 MiB, 8 MiB stack} x {no bytes, some bytes before the header} (quick: the last dimension alternates instead of multiplying); walked by the C01 walker under the same meters in a supervised worker process. every name value replaced by 34 names that select another reader and every string value by 14 hostile strings (dates with multi-byte text on a field border, lone byte-order marks, 10 000 bytes); Enumerated part: the complete single-fault space of all templates (thorough; quick: complete except name / string values, of which every third is taken); plus seeded cases with 2-3 simultaneous faults (100 000 quick, 2 000 000 thorough). Non-trivial = outcome differs from the unfaulted template; distinct = hash of (template, faults, configuration)",
+            rule: "one case = a typed template (page tree; name tree + number tree + outlines; Type0/CID/simple fonts with /W, /Differences, ToUnicode; colour spaces with all four function types; stream /Length references, predictors, LZW, CCITT/DCT image parameters; hand-written object stream with /Extends under an xref stream; two-revision files with classic and stream sections; a four-revision file (classic, classic, stream, stream); /Encrypt dictionaries that fail the password check and two RC4-encrypted 'rich' documents (plain and through crypt filters with object streams) that open with the empty user password; page tree, name tree and number tree that are DAGs; a 3000-link /Parent chain without a cycle (faults planted in its first 8 objects); annotations with appearance dictionaries; embedded files, metadata, structure tree, outline destinations and actions, catalog /Dests; the 'rich' document) + structure-aware at-rest faults written through the harness's writer: retarget (every reference field x every object incl. itself, object 0 and an undefined number), boundary (every numeric field x {-1, 0, 1, 2^31-1, 2^32-1, 2^64-1}), nest (25 and 5000 levels), stream /Length reference retargeted, stream data replaced by 49 hostile payloads (PostScript calculator programs, CMaps, content streams incl. inline images without data, object-stream headers, runs of 100 000-150 000 '%', '(' or escaped line ends), every dictionary entry removed, hostile stream dictionary entries (/Length disagreeing with the data, /Filter arrays of 1000 stages, mismatching /DecodeParms, /JBIG2Globals naming the stream itself), hostile /Size /Prev (boundary values, self-loop, and every other section of the file, older or newer) /Root /W /Index /Length of trailer and xref stream; x {strict, tolerant} x {cached, uncached} x {2 MiB, 8 MiB stack} x {no bytes, some bytes before the header} (quick: the last dimension alternates instead of multiplying); walked by the C01 walker under the same meters in a supervised worker process. every name value replaced by 34 names that select another reader and every string value by 14 hostile strings (dates with multi-byte text on a field border, lone byte-order marks, 10 000 bytes); Enumerated part: the complete single-fault space of all templates (thorough; quick: complete except name / string values, of which every third is taken); plus seeded cases with 2-3 simultaneous faults (100 000 quick, 2 000 000 thorough). Non-trivial = outcome differs from the unfaulted template; distinct = hash of (template, faults, configuration)",
             assumptions: vec![
                 "planting the hostile structure is generation (stated as such); the simulation part is the resource side: stack size, allocator cap and meters, log-event budget, worker process death".into(),
                 "same resource bounds as C01".into(),
